@@ -286,8 +286,10 @@ func (u *Unit) assumeTypeInv(x *Term, t types.Type, st *State, guard *Term) {
 		return
 	}
 	bound := st.alloc
-	if x.Op == "select" && x.Args[0].Op == "const" && strings.HasPrefix(x.Args[0].Name, "H0_") {
-		// read from the untouched entry heap: everything it holds existed before the call
+	if x.Op == "select" && x.Args[0].Op == "const" && strings.HasPrefix(x.Args[0].Name, "H0_") && x.Args[1].Sort == SRef && u.c.oldRoot[u.c.Root(x.Args[1]).id] {
+		// read from the untouched entry heap at a location of an object that existed at entry: everything stored
+		// there existed before the call. (Locations of objects allocated later are uninitialised in H0 and hold
+		// whatever the allocation puts there, so nothing may be assumed about them.)
 		bound = u.alloc0
 	}
 	key := fmt.Sprintf("%d|%d", x.id, bound.id)
